@@ -252,6 +252,121 @@ def sym_confidence_proteins(ctx, cfg):
     return PathOutcome(props, inputs, None)
 
 
+# ------------------------------------------------- target-only FASTA (has_decoys=False) --
+# target peptides by composition class: class X spans two protein groups, class Y one
+ND_TARGETS = {"ACDEK": "P0", "CADEK": "P0", "DACEK": "P1", "FGHIK": "P1"}
+ND_DECOYS = ["EDCAK", "DECAK", "IHGFK", "CEDAK"]      # anagrams of class X, Y, X
+ND_PMAP = {"P0": PREFIX + "P0", "P1": PREFIX + "P1"}
+
+
+def _nd_allowed(seq, is_target):
+    """groups a row may be mapped to: a target peptide to its group; a decoy peptide to the mirrored group of SOME
+    unique target peptide of the same composition (the match is drawn at random)"""
+    if is_target:
+        return {ND_TARGETS[seq]} if seq in ND_TARGETS else set()
+    comp = "".join(sorted(seq))
+    return {PREFIX + g for t, g in ND_TARGETS.items() if "".join(sorted(t)) == comp}
+
+
+def _nd_check(rows, outrows, zs, zt_vals, eq_score):
+    """rows: (peptide, is_target) of the table; outrows: records returned. -> list of (name, bool or z3 term)"""
+    import z3
+    props = []
+    valid = set(ND_TARGETS.values()) | {PREFIX + g for g in ND_TARGETS.values()}
+    seen = set()
+    for r in outrows:
+        g = r["mokapot protein group"]
+        ok = isinstance(g, str) and g in valid
+        props.append(("entry_group_is_a_target_group_or_its_mirrored_decoy_group[%r]" % (g,), z3.BoolVal(bool(ok))))
+        if not ok:
+            continue
+        key = _pair_key(g)
+        props.append(("one_entry_per_pair[%s]" % sorted(key), z3.BoolVal(key not in seen)))
+        seen.add(key)
+        # the entry is a row of the table that may be mapped to this group, and no TARGET row of the pair
+        # (their mapping is deterministic) scores higher
+        opts = []
+        for i, (pep, is_t) in enumerate(rows):
+            if g in _nd_allowed(pep, is_t) and r["best peptide"] == pep and r["stripped sequence"] == pep and bool(zt_vals[i]) == bool(r["Label"]):
+                opts.append(eq_score(r["score"], i))
+        props.append(("entry_is_a_row_that_maps_to_its_group[%s]" % g, z3.Or(opts) if opts else z3.BoolVal(False)))
+    for i, (pep, is_t) in enumerate(rows):
+        if is_t and pep in ND_TARGETS:
+            key = _pair_key(ND_TARGETS[pep])
+            props.append(("pair_of_target_row_%d_has_an_entry" % i, z3.BoolVal(key in seen)))
+    return props
+
+
+def sym_nodecoys(ctx, cfg):
+    """picked_protein with a Proteins object of a target-only FASTA, called for two peptide tables one after the
+    other (one Proteins object serves every table of a run)."""
+    import z3
+    from symx import sympd, symnp, core, world
+    from symx.core import SNum, SBool, PathOutcome, Unsupported
+    PP, U, F = setup()
+    PE = world.mod("mokapot.peptides")
+    from mokapot.proteins import Proteins
+    prot = Proteins(decoy_prefix=PREFIX, peptide_map=dict(ND_TARGETS), shared_peptides={}, protein_map=dict(ND_PMAP), has_decoys=False)
+    tables = cfg["tables"]
+    inputs = dict(tables=[], scores=[])
+    props = []
+    try:
+        for k, table in enumerate(tables):
+            rows = [(pep, pep in ND_TARGETS) for pep in table]
+            zs = [z3.Real("s%d_%d" % (k, i)) for i in range(len(rows))]
+            df = sympd.DataFrame({"Label": [r[1] for r in rows], "peptide": [r[0] for r in rows], "score": [SNum(z) for z in zs], "PSMId": list(range(len(rows)))})
+            inputs["tables"].append(list(table))
+            inputs["scores"].append([SNum(z) for z in zs])
+            out = PP.picked_protein(df, "Label", "peptide", "score", prot, symnp.Generator("nondet"))
+            outrows = out.to_dict(orient="records")
+            props += [("call%d:%s" % (k + 1, n), v) for n, v in _nd_check(rows, outrows, zs, [r[1] for r in rows], lambda sc, i: core._z(sc) == zs[i])]
+            # no target row of the pair beats the entry
+            for r in outrows:
+                g = r["mokapot protein group"]
+                if isinstance(g, str):
+                    for i, (pep, is_t) in enumerate(rows):
+                        if is_t and pep in ND_TARGETS and _pair_key(ND_TARGETS[pep]) == _pair_key(g):
+                            props.append(("call%d:entry_of_%s_not_beaten_by_target_row_%d" % (k + 1, g, i), core._z(r["score"]) >= zs[i]))
+        props.append(("proteins_object_unchanged_by_the_calls", z3.BoolVal(dict(prot.peptide_map) == ND_TARGETS and dict(prot.protein_map) == ND_PMAP)))
+    except Unsupported:
+        raise
+    except ValueError as ex:
+        return PathOutcome([], inputs, None, "exc", note="ValueError:" + str(ex)[:80])
+    except Exception as ex:
+        return PathOutcome([], inputs, None, "exc", note=type(ex).__name__ + ":" + str(ex)[:80])
+    return PathOutcome(props, inputs, None)
+
+
+def real_nodecoys(cfg, inp):
+    import numpy as np
+    import pandas as pd
+    import z3
+    from mokapot.proteins import Proteins
+    from mokapot.picked_protein import picked_protein
+    for seed in (0, 1, 2, 3):
+        np.random.seed(seed)      # match_decoy samples from the global generator
+        prot = Proteins(decoy_prefix=PREFIX, peptide_map=dict(ND_TARGETS), shared_peptides={}, protein_map=dict(ND_PMAP), has_decoys=False)
+        for k, (table, scores) in enumerate(zip(inp["tables"], inp["scores"])):
+            rows = [(pep, pep in ND_TARGETS) for pep in table]
+            sc = [float(x) for x in scores]
+            df = pd.DataFrame({"Label": [r[1] for r in rows], "peptide": [r[0] for r in rows], "score": sc, "PSMId": list(range(len(rows)))})
+            try:
+                out = picked_protein(df, "Label", "peptide", "score", prot, np.random.default_rng(seed))
+            except Exception as ex:
+                return dict(exception=repr(ex), violation="picked_protein (target-only FASTA), call %d, raised %r" % (k + 1, ex))
+            outrows = out.to_dict("records")
+            for name, v in _nd_check(rows, outrows, None, [r[1] for r in rows], lambda s_, i: z3.BoolVal(float(s_) == sc[i])):
+                if z3.is_false(z3.simplify(v)):
+                    return dict(violation="target-only FASTA, call %d on one Proteins object: %s fails; entries %s" % (k + 1, name, [(r["mokapot protein group"], r["best peptide"], r["score"]) for r in outrows]))
+            for r in outrows:
+                for i, (pep, is_t) in enumerate(rows):
+                    if is_t and _pair_key(ND_TARGETS[pep]) == _pair_key(r["mokapot protein group"]) and float(r["score"]) < sc[i]:
+                        return dict(violation="target-only FASTA, call %d: entry %r (score %r) is beaten by the target peptide %s (score %r) of the same pair" % (k + 1, r["mokapot protein group"], r["score"], pep, sc[i]))
+        if dict(prot.peptide_map) != ND_TARGETS:
+            return dict(violation="picked_protein changed the peptide map of the Proteins object it was given: %s" % dict(prot.peptide_map))
+    return dict(outputs=None, violation=None)
+
+
 def harnesses(tier):
     from symx.runner import Harness
     PP, U, F = setup()
@@ -285,6 +400,15 @@ def harnesses(tier):
         hs.append(Harness("confidence_proteins[n=%d,pairs=%d]" % (cfg["n"], cfg["pairs"]), cfg, sym_confidence_proteins, real="conf_proteins",
                           functions=[C.assign_confidence, C.LinearConfidence._assign_confidence, PP.picked_protein], bounds=cfg, stubs=stubs + ["as C03 (VFS, q-values by the C01 formula)"],
                           assumptions=["distinct spectra (competition below the protein level is C03's business)"], sample_rate=0.05))
+    # target-only FASTA: decoy peptides are matched to target peptides of the same composition; one Proteins
+    # object serves two tables one after the other
+    PE = __import__("symx.world", fromlist=["x"]).mod("mokapot.peptides")
+    for tables in ([["ACDEK", "EDCAK"], ["FGHIK", "CEDAK", "IHGFK"]], [["EDCAK", "DACEK"], ["DECAK"]]) if tier == "quick" else \
+            ([["ACDEK", "EDCAK", "FGHIK"], ["FGHIK", "CEDAK", "IHGFK"]], [["EDCAK", "DECAK", "CEDAK"], ["ACDEK", "DECAK"]], [["ACDEK", "CADEK", "DACEK", "EDCAK"]]):
+        hs.append(Harness("picked[target-only fasta,one Proteins object,tables %s]" % " then ".join("+".join(t) for t in tables), dict(tables=tables), sym_nodecoys, real="nodecoys",
+                          functions=[PP.picked_protein, PP.group_without_decoys, PE.match_decoy, PE.residue_sort, U.groupby_max],
+                          bounds=dict(tables=len(tables), peptides=max(len(t) for t in tables)), stubs=stubs + ["Series.sample(frac=1) without random_state -> arbitrary permutation"],
+                          assumptions=["concrete peptide strings without modifications; composition classes X (two groups) and Y (one group)"], sample_rate=0.05))
     # group names as built by the real read_fasta, corresponding entry orders
     for nm, tp in (("equal sets", {"A": ["PEPTIDEAK", "PEPTIDECK"], "B": ["PEPTIDEAK", "PEPTIDECK"]}),
                    ("nested sets", {"A": ["PEPTIDEAK", "PEPTIDECK"], "B": ["PEPTIDEAK"]})):
@@ -455,4 +579,4 @@ def real_conf_proteins(cfg, inp):
     return dict(outputs=None, violation=None)
 
 
-REAL = {"picked": real_picked, "picked_fasta": real_picked_fasta, "conf_proteins": real_conf_proteins}
+REAL = {"nodecoys": real_nodecoys, "picked": real_picked, "picked_fasta": real_picked_fasta, "conf_proteins": real_conf_proteins}
